@@ -172,7 +172,9 @@ Definition bitfield_inputs (b : bitfield) : bool * N :=
 
 Definition bitfield_accepts (b : bitfield) : bool :=
   let '(isint, tsize) := bitfield_inputs b in
-  match bitfield_check isint tsize (if bf_alignas b then 8 else 0) (bf_packed b) (bf_named b) (bf_width b) with
+  (* structdecl passes the alignment of the specifiers only for a member with a declarator;
+     for `specifiers : width;` it calls addmember(b, base, NULL, 0, width) *)
+  match bitfield_check isint tsize (if bf_alignas b && bf_named b then 8 else 0) (bf_packed b) (bf_named b) (bf_width b) with
   | None => true
   | Some _ => false
   end.
